@@ -3,6 +3,7 @@ import tables as T
 from cfg import cfg_of
 from flow import Taint, Tracker, callee_matches, field_reads, op_local, prep, backward
 from rules import CallGuard, CallSink, CmpGuard, RetSink, AggSink, BlockSink, FieldOptGuard, compare_sites
+from rules import PL
 from props.C04 import call_results
 from props.C10 import _ConstCmp, len_of, reads
 import panics as P
@@ -43,35 +44,41 @@ def run(R):
     R.who_may_write("C08.own.queue", RF, "to_be_fetched", WRITERS, floor=8, descr="to_be_fetched is touched only by the fetcher's own functions")
     R.who_may_construct("C08.own.literal", RF, None, [RF + "::new"], floor=1)
 
-    # (1) no duplicate in-flight
+    # (1) no duplicate in-flight: every insertion site (in the function or any closure of it) is either a VacantEntry of
+    #     that map or is cut, in the same body, by !on_going_fetches.contains_key((key,type))
     ak = R.body("C08.dup", RF + "::add_keys")
     nk = R.body("C08.dup", RF + "::next_keys_to_fetch")
     n_ins = 0
-    for b in (ak, nk):
-        if b is None:
-            continue
-        prep(b)
-        ins = on_field([HM + "insert"], "on_going_fetches")(b)
-        if ins:
-            n_ins += len(ins)
-            absent = CallGuard([HM + "contains_key"], ("false",), "!on_going_fetches.contains_key((key,type))",
-                               arg_pred=lambda body, blk, t: op_local(t["args"][0]) in Taint(body).closure({d for d, r, p in field_reads(body, "on_going_fetches")}))
-            R.gate("C08.dup.insert", b, BlockSink(on_field([HM + "insert"], "on_going_fetches"), "on_going_fetches.insert"), [[absent]],
-                   descr="%s inserts an in-flight entry only for an absent (key,type)" % b.npath.split("::")[-1], per_iteration=True)
-        # entry API
-        ent = on_field([HM + "entry"], "on_going_fetches")(b)
-        if ent:
-            ta = Taint(b, through="all")
-            e = ta.closure({cfg_of(b).term(x)["d"][0] for x in ent})
-            vi = [blk for blk in b.blocks if blk["term"]["k"] == "call" and not blk["cleanup"] and (blk["term"]["ncallee"] or "").endswith("VacantEntry::insert")]
-            oi = [blk for blk in b.blocks if blk["term"]["k"] == "call" and not blk["cleanup"] and ((blk["term"]["ncallee"] or "").endswith("OccupiedEntry::insert")
-                  or (blk["term"]["ncallee"] or "").endswith("Entry::insert_entry") or (blk["term"]["ncallee"] or "").endswith("Entry::and_modify")
-                  or (blk["term"]["ncallee"] or "").endswith("Entry::or_insert")) and op_local(blk["term"]["args"][0]) in e]
-            n_ins += len([x for x in vi if op_local(x["term"]["args"][0]) in e])
-            ok = not oi
-            if oi:
-                R.viol("C08.dup.entry", "occupied-overwrite", "an occupied on_going_fetches entry is overwritten in %s" % b.path, b, oi[0]["term"]["l"])
-            R.inst("C08.dup.entry", "K2 mutator whitelist", "entry() on on_going_fetches is only filled through VacantEntry::insert", len(vi), ok)
+    for fn in (RF + "::add_keys", RF + "::next_keys_to_fetch"):
+        for b in F.item(fn):
+            prep(b)
+            ins = on_field([HM + "insert"], "on_going_fetches")(b)
+            # a closure reaches the map through its captured `self`: any HashMap::insert on a map of that key type
+            if b.kind == "closure":
+                ins = [blk["id"] for blk in b.blocks if blk["term"]["k"] == "call" and not blk["cleanup"] and callee_matches(blk["term"], [HM + "insert"])
+                       and "(libp2p_kad::record::Key, ant_protocol::storage::header::RecordType)" in b.locals.get(str(op_local(blk["term"]["args"][0])), "")
+                       and "PeerId, " not in b.locals.get(str(op_local(blk["term"]["args"][0])), "").split("HashMap<")[-1].split(">")[0][:60].replace("RecordType), (libp2p_identity::peer_id::PeerId", "")]
+            if ins:
+                n_ins += len(ins)
+                absent = CallGuard([HM + "contains_key"], ("false",), "!on_going_fetches.contains_key((key,type))",
+                                   arg_pred=lambda body, blk, t: True if body.kind == "closure" else
+                                   op_local(t["args"][0]) in Taint(body).closure({d for d, r, p in field_reads(body, "on_going_fetches")}))
+                R.gate("C08.dup.insert", b, BlockSink(lambda body, s=ins: s, "on_going_fetches.insert"), [[absent]],
+                       descr="%s inserts an in-flight entry only for an absent (key,type), checked against the current set" % b.npath.split("ReplicationFetcher::")[-1],
+                       per_iteration=(b.kind != "closure"))
+            ent = on_field([HM + "entry"], "on_going_fetches")(b)
+            if ent:
+                ta = Taint(b, through="all")
+                e = ta.closure({cfg_of(b).term(x)["d"][0] for x in ent})
+                vi = [blk for blk in b.blocks if blk["term"]["k"] == "call" and not blk["cleanup"] and (blk["term"]["ncallee"] or "").endswith("VacantEntry::insert")]
+                oi = [blk for blk in b.blocks if blk["term"]["k"] == "call" and not blk["cleanup"] and ((blk["term"]["ncallee"] or "").endswith("OccupiedEntry::insert")
+                      or (blk["term"]["ncallee"] or "").endswith("Entry::insert_entry") or (blk["term"]["ncallee"] or "").endswith("Entry::and_modify")
+                      or (blk["term"]["ncallee"] or "").endswith("Entry::or_insert")) and op_local(blk["term"]["args"][0]) in e]
+                n_ins += len([x for x in vi if op_local(x["term"]["args"][0]) in e])
+                ok = not oi
+                if oi:
+                    R.viol("C08.dup.entry", "occupied-overwrite", "an occupied on_going_fetches entry is overwritten in %s" % b.path, b, oi[0]["term"]["l"])
+                R.inst("C08.dup.entry", "K2 mutator whitelist", "entry() on on_going_fetches is only filled through VacantEntry::insert", len(vi), ok)
     if n_ins < 2:
         R.viol("C08.dup", "instance-floor", "expected 2 insertion sites into on_going_fetches, found %d" % n_ins)
 
@@ -79,8 +86,14 @@ def run(R):
     if nk is not None:
         cap_val = int(F.consts.get(RFM + "MAX_PARALLEL_FETCH", {"value": -1})["value"])
         cap = _ConstCmp(F, len_of("on_going_fetches"), lambda v: v == cap_val, ("Lt",), "on_going_fetches.len() < MAX_PARALLEL_FETCH")
-        R.gate("C08.cap", nk, BlockSink(on_field([HM + "insert"], "on_going_fetches"), "on_going_fetches.insert"), [[cap]],
-               descr="batch scheduling inserts only below MAX_PARALLEL_FETCH, re-checked every iteration", per_iteration=True)
+        if on_field([HM + "insert"], "on_going_fetches")(nk):
+            R.gate("C08.cap", nk, BlockSink(on_field([HM + "insert"], "on_going_fetches"), "on_going_fetches.insert"), [[cap]],
+                   descr="batch scheduling inserts only below MAX_PARALLEL_FETCH, re-checked every iteration", per_iteration=True)
+        else:
+            # insertion delegated to a closure: the number of elements handed to it must be bounded by the remaining capacity
+            # Not an alarm: a count-bounded hand-over (e.g. `take(remaining_capacity)`) can keep the cap; the clause is simply
+            # not decided for that shape and says so in the evidence.
+            R.inst("C08.cap", "K4 gate", "batch scheduling inserts only below MAX_PARALLEL_FETCH — NOT EVALUATED: insertion is delegated to a closure", 0, None)
         R.const_rel("C08.cap.const", "MAX_PARALLEL_FETCH == K_VALUE (20)", lambda F_: (cap_val == 20, {"MAX_PARALLEL_FETCH": cap_val}))
         # early return on >=
         g = cfg_of(nk)
@@ -98,10 +111,10 @@ def run(R):
     if ak is not None:
         prep(ak)
         push = [b["id"] for b in ak.blocks if b["term"]["k"] == "call" and not b["cleanup"] and callee_matches(b["term"], ["alloc::vec::Vec::push"])
-                and op_local(b["term"]["args"][0]) in Taint(ak).closure(Taint(ak).var_locals("new_incoming_keys"))]
+                and "Vec<(ant_protocol::NetworkAddress, ant_protocol::storage::header::RecordType)>" in ak.locals.get(str(op_local(b["term"]["args"][0])), "")]
         sink = BlockSink(lambda b, s=push: s, "new_incoming_keys.push")
         held = CallGuard([HM + "contains_key"], ("false",), "!locally_stored_keys.contains_key(key)",
-                         arg_pred=lambda body, blk, t: op_local(t["args"][0]) in Taint(body).closure(Taint(body).var_locals("locally_stored_keys")))
+                         arg_pred=lambda body, blk, t: op_local(t["args"][0]) in Taint(body).closure(PL(body, 3)))  # (self, holder, incoming_keys, locally_stored_keys)
         queued = CallGuard([HM + "contains_key"], ("false",), "!to_be_fetched.contains_key((key,type,holder))",
                            arg_pred=lambda body, blk, t: op_local(t["args"][0]) in Taint(body).closure({d for d, r, p in field_reads(body, "to_be_fetched")}))
         nofar = FieldOptGuard("farthest_acceptable_distance", ("None",), "no farthest bound set")
@@ -139,7 +152,7 @@ def run(R):
         # that filter runs before queuing
         g = cfg_of(ak)
         ret = [b["id"] for b in ak.blocks if b["term"]["k"] == "call" and not b["cleanup"] and callee_matches(b["term"], ["alloc::vec::Vec::retain"])
-               and op_local(b["term"]["args"][0]) in Taint(ak).closure(Taint(ak).var_locals("new_incoming_keys"))]
+               and "Vec<(ant_protocol::NetworkAddress, ant_protocol::storage::header::RecordType)>" in ak.locals.get(str(op_local(b["term"]["args"][0])), "")]
         fe = [b["id"] for b in ak.blocks if b["term"]["k"] == "call" and not b["cleanup"] and callee_matches(b["term"], ["core::iter::traits::iterator::Iterator::for_each"])]
         okq = bool(ret) and bool(fe)
         if okq:
@@ -155,7 +168,8 @@ def run(R):
         w = [b["id"] for b in sf.blocks for s in b["stmts"] if s["d"][-1] == ".farthest_acceptable_distance" and len(s["d"]) > 1]
 
         def newd(b):
-            return Taint(b).closure(Taint(b).var_locals("new_farthest_distance"))
+            # the freshly computed distance: result of NetworkAddress::distance in the function body itself
+            return Taint(b).closure(call_results(["ant_protocol::NetworkAddress::distance"])(b))
 
         def oldd(b):
             ta = Taint(b)
